@@ -19,6 +19,7 @@ type Env struct {
 	InnerD                           *idl.Struct // element struct with optional fields that have declared defaults
 	TdI32, TdE, TdS, TdL, TdTd, IncT *idl.Typedef
 	TdME, TdLE                       *idl.Typedef // typedef'd containers holding enums
+	TdBin                            *idl.Typedef // typedef binary (as value, element and map key)
 	// StandardRoots: leave out / keep only the roots whose field 1 has a declared default
 	// (lets a check put them into a program of their own)
 	NoDefaultRoots, OnlyDefaultRoots bool
@@ -65,6 +66,8 @@ func NewEnv(ns string) *Env {
 	e.Main.Add(e.TdME)
 	e.TdLE = &idl.Typedef{Name: "TdLE", Type: idl.ListOf(idl.EnumT(e.E))}
 	e.Main.Add(e.TdLE)
+	e.TdBin = &idl.Typedef{Name: "TdBin", Type: idl.T(idl.Binary)}
+	e.Main.Add(e.TdBin)
 	return e
 }
 
@@ -81,7 +84,7 @@ func (e *Env) Leaves() []Named {
 		{"enum", idl.EnumT(e.E)}, {"struct", idl.StructT(e.Inner)}, {"union", idl.StructT(e.U)}, {"exception", idl.StructT(e.X)},
 		{"tdbase", idl.TypedefT(e.TdI32)}, {"tdenum", idl.TypedefT(e.TdE)}, {"tdstruct", idl.TypedefT(e.TdS)}, {"tdcont", idl.TypedefT(e.TdL)}, {"tdtd", idl.TypedefT(e.TdTd)},
 		{"incstruct", idl.StructT(e.IncS)}, {"incenum", idl.EnumT(e.IncE)}, {"inctd", idl.TypedefT(e.IncT)},
-		{"tdmapenum", idl.TypedefT(e.TdME)}, {"tdlistenum", idl.TypedefT(e.TdLE)}, {"structdef", idl.StructT(e.InnerD)},
+		{"tdmapenum", idl.TypedefT(e.TdME)}, {"tdlistenum", idl.TypedefT(e.TdLE)}, {"structdef", idl.StructT(e.InnerD)}, {"tdbinary", idl.TypedefT(e.TdBin)},
 	}
 }
 
@@ -91,7 +94,7 @@ func (e *Env) KeyLeaves(all bool) []Named {
 	ks := []Named{{"i32", idl.T(idl.I32)}, {"string", idl.T(idl.String)}, {"enum", idl.EnumT(e.E)}}
 	if all {
 		ks = append(ks, Named{"i64", idl.T(idl.I64)}, Named{"bool", idl.T(idl.Bool)}, Named{"byte", idl.T(idl.Byte)}, Named{"i16", idl.T(idl.I16)}, Named{"double", idl.T(idl.Double)},
-			Named{"binary", idl.T(idl.Binary)}, Named{"tdbase", idl.TypedefT(e.TdI32)}, Named{"tdenum", idl.TypedefT(e.TdE)}, Named{"struct", idl.StructT(e.Inner)}, Named{"incenum", idl.EnumT(e.IncE)})
+			Named{"binary", idl.T(idl.Binary)}, Named{"tdbinary", idl.TypedefT(e.TdBin)}, Named{"tdbase", idl.TypedefT(e.TdI32)}, Named{"tdenum", idl.TypedefT(e.TdE)}, Named{"struct", idl.StructT(e.Inner)}, Named{"incenum", idl.EnumT(e.IncE)})
 	}
 	return ks
 }
@@ -114,7 +117,9 @@ func (e *Env) Types1(allKeys bool) []Named {
 	if !allKeys {
 		// struct and binary keys at least once
 		out = append(out, Named{"map_struct_i32", idl.MapOf(idl.StructT(e.Inner), idl.T(idl.I32))}, Named{"map_binary_string", idl.MapOf(idl.T(idl.Binary), idl.T(idl.String))},
-			Named{"map_i64_struct", idl.MapOf(idl.T(idl.I64), idl.StructT(e.Inner))}, Named{"map_bool_list", idl.MapOf(idl.T(idl.Bool), idl.T(idl.I16))})
+			Named{"map_i64_struct", idl.MapOf(idl.T(idl.I64), idl.StructT(e.Inner))}, Named{"map_bool_list", idl.MapOf(idl.T(idl.Bool), idl.T(idl.I16))},
+			// keys written through typedefs of non-integer types
+			Named{"map_tdbinary_i32", idl.MapOf(idl.TypedefT(e.TdBin), idl.T(idl.I32))}, Named{"map_tdenum_string", idl.MapOf(idl.TypedefT(e.TdE), idl.T(idl.String))}, Named{"map_tdstruct_i32", idl.MapOf(idl.TypedefT(e.TdS), idl.T(idl.I32))})
 	}
 	return out
 }
